@@ -285,7 +285,9 @@ class PumpSweep(Part):
         ("filter", "(&(cn;lang-en=a\\2ab*c)(|(1.2.3:dn:2.5.13.2:=v)(!(o>=1))))"),
     ]
     SYMBOLS = ["1", "0", "a", "A", " ", "-", "_", ".", "'", "\\", "$", "(", ")", "{", ";", ":", "*", "=", "\\27", "1.", ".1", "a ", " a",
-               "' '", "$ a", ";a", "(!", "(&", "\\2", "\\41", "'v' ", "a*", "1.2$", "$1.2", "1.2 $ "]
+               "' '", "$ a", ";a", "(!", "(&", "\\2", "\\41", "'v' ", "a*", "1.2$", "$1.2", "1.2 $ ",
+               # one representative per class that str / bytes / re predicates tell apart
+               "\x1f", "\x0b", "\x7f", "\x85", "\xa0", "\u00e9", "\u2028", "\ue000", "\U00010000"]
 
     def enumerate(self, tier: str, shard: int, nshards: int) -> t.Iterable[t.Any]:
         # one case = all families at one position of one sentence (a batch shares a forked child)
